@@ -3,7 +3,7 @@
     a scanned site ([all_sites_accounted], [no_stale_entries] in Proofs.v, by vm_compute).  An entry that claims a
     theorem carries the theorem itself (statement + proof term), so a claim cannot outlive its proof. *)
 From V Require Import Base.Util Gql.Ast Peg.Peg Gen.C07_grammar_gen C07.Builder C07.Model.
-From V Require Import C08.Model C08.Spec C08.SiteType C08.ProofsRender C08.ProofsEscape C08.ProofsShape C08.ProofsMerge.
+From V Require Import C08.Model C08.Spec C08.SiteType C08.ProofsRender C08.ProofsEscape C08.ProofsShape C08.ProofsMerge C08.ProofsVisitor.
 From V Require C12.Properties.
 
 Inductive status :=
@@ -96,7 +96,7 @@ Definition table : list (site * status) := [
   (mk_site F_dm (s "merge_fields") (s "assert") (s "Cannot merge fields of different names") 1, checked);
   (mk_site F_dm (s "merge_fields") (s "panic") (s "Cannot merge fields of different types\nleft: {:?}\nright: {") 1, Known (s "conflicting-response-key") _ merge_unchecked_refuted);
   (mk_site F_dm (s "merge_selection_trees") (s "panic") (s "Cannot merge selection trees of different types") 1, Known (s "conflicting-response-key") _ merge_unchecked_refuted);
-  (mk_site F_ssv (s "visit_fields_in_selection_set_impl") (s "expect") (s "Type system error") 1, unspread);
+  (mk_site F_ssv (s "visit_fields_in_selection_set_impl") (s "expect") (s "Type system error") 1, Guarded (s "C08_visitor_fragments_defined (guard: the document is accepted by check over a well-formed schema; C03_accepted_fields_and_fragments_defined + C01.Model.visit_vars)") _ visitor_fragments_defined);
   (mk_site F_tp (s "check_fragment_condition") (s "expect") (s "Type system error") 1, unspread);
   (mk_site F_tp (s "check_skip_directive") (s "expect") (s "Type system error") 4, unspread);
   (mk_site F_tp (s "generate_branching_conditions") (s "expect") (s "Type system error") 2, unspread);
